@@ -44,9 +44,12 @@ theorem C09_after_all_former_sharers (hc : Consistent X) (hp : Protocol X Genera
       (h' = 0 ∨ ∃ j, rf = some j ∧ h' ∈ kids (X.ops.take (j+1))) → X.hb (.oth a) (.oth l) :=
   consume_after_all_former_sharers hc hp hrw hvb obl_dec_release c
 
-/-- non-vacuity: the concrete execution of `WM/ExampleConsume.lean` is a `Consume` -/
-example : ¬ ∃ f k, ExC.exX.kind f = .destroy k :=
-  C09_moved_out_never_destroyed (fenceOrd := some .acquire) ExC.ex_consistent ExC.ex_protocol ExC.ex_corw ExC.ex_viaborn ExC.ex_consume
+/-- non-vacuity: the concrete execution of `WM/ExampleConsume.lean` is a `Consume` and meets every
+hypothesis of the general theorems (stated at that execution's own orderings, so that this example
+does not depend on the generated facts) -/
+example : ¬ ∃ f k, ExC.exX.kind f = .destroy k := by
+  rintro ⟨f, k, hf⟩
+  exact consume_excludes_destroy ExC.ex_consistent ExC.ex_protocol ExC.ex_corw ExC.ex_viaborn ExC.ex_consume hf
 
 open M1
 
